@@ -5,10 +5,6 @@ var _ = math.Pi
 //go:noinline
 func NondetInt8(id int) int8 {
 	switch id {
-	case 0:
-		return int8(-128)
-	case 1:
-		return int8(-1)
 	}
 	return 0
 }
@@ -65,6 +61,8 @@ func NondetUint64(id int) uint64 {
 //go:noinline
 func NondetInt(id int) int {
 	switch id {
+	case 1:
+		return int(-1)
 	}
 	return 0
 }
@@ -105,10 +103,44 @@ func NondetFloat64(id int) float64 {
 }
 
 //go:noinline
-func NondetRange(id int, lo int, hi int) int { return lo }
+func NondetRange(id int, lo int, hi int) int {
+	switch id {
+	case 1:
+		return -1
+	case 9999:
+		return 0
+	}
+	return lo
+}
 
 //go:noinline
-func NondetString(id int, maxLen int) string { return "" }
+func NondetString(id int, maxLen int) string {
+	switch id {
+	case 0:
+		return "\x00\x00\x00\x00"
+	}
+	return ""
+}
+
+//go:noinline
+func NondetInt64R(id int, lo, hi int64) int64 {
+	switch id {
+	case 1:
+		return -1
+	case 9999:
+		return 0
+	}
+	return lo
+}
+
+//go:noinline
+func NondetUint64R(id int, lo, hi uint64) uint64 {
+	switch id {
+	case 9999:
+		return 0
+	}
+	return lo
+}
 
 //go:noinline
 func VerifOutI64(tag string, v int64) { println(tag, int32(v>>32), uint32(v)) }
@@ -134,9 +166,9 @@ func VerifAssume(b bool) {}
 //go:noinline
 func VerifReach(k int) {}
 
-//go:noinline
-func quo_int8_vv(x int8, y int8) int8 { return x / y }
-
 func main() {
-	println("quo_int8_vv", quo_int8_vv(NondetInt8(0), NondetInt8(1)))
+	s := NondetString(0, 4)
+	i := NondetInt(1)
+	println("l", len(s))
+	println("b", s[i])
 }
